@@ -98,7 +98,7 @@ def run(chk):
         chk.generated_changed += TV.translate()
     except TV.TranslateError as e:
         raise core.InfraError(f'translate_vocab: {e}')
-    chk.lean_build(['PeptVerif.Props.C15'], DRV)
+    chk.lean_build(['PeptVerif.Props.C15', 'PeptVerif.Props.C15Glycan'], DRV)
     lap('build')
     chk.trusted += [
         'translate_vocab.py: element tables (ISOTOPIC_ATOMIC_MASSES, AVERAGE_ATOMIC_MASSES, HILL_ORDER, particle masses) and the '
